@@ -10,9 +10,12 @@ from collections import Counter
 
 import common
 import omen_gen
+import omen_history
 
 ID = "C10"
-TRUSTED = ["CPython dict/list semantics of the loaded grammar (exercised: the loaded tables are compared with "
+TRUSTED = ["directories with a history: harness/omen_history.py (second / third model written INTO a directory the real loader "
+           "has already been run on; loader in the same process and in a new interpreter, harness/omen_child.py)",
+           "CPython dict/list semantics of the loaded grammar (exercised: the loaded tables are compared with "
            "OmenSpec.ip_at/cp_at/ln_at on every generated directory)",
            "harness/omen_gen.brute_levels (independent enumerator used as oracle)",
            "translator tie: harness/translate_omen_gen.py (the reading it gives its accepted Python subset: objects as "
@@ -242,6 +245,23 @@ def long_session(ctx, sc, C, dist):
     return vio
 
 
+def dir_histories(ctx, sc, C, dist):
+    """For every generated history: model A written, loaded and enumerated with the real loader / generator, model B written
+    INTO THE SAME DIRECTORY (same n-gram size + alphabet + encoding with other lines; only the levels edited; only one file
+    edited; another n-gram size; another alphabet; sometimes a third model or back to the first), loaded again by the same
+    process and by a new interpreter: every level must be the brute-force level of the files now on disk."""
+    n = ctx.scale(30, 200)
+    hists = [omen_history.gen_history(ctx.rng, ctx.scale(1500, 4000)) for _ in range(n)]
+    vio, finals = omen_history.run_histories(hists, sc, C["omen_optimizer_max_length"], ctx.rng, ctx.scale(8, 12),
+                                             ctx.scale(3000, 10000), dist)
+    dist["dir_histories"] = len(hists)
+    # the final in-process loads also go to Coq: model of the LAST files against what the loader built / the generator emitted
+    ncoq = ctx.scale(8, 24)
+    cases = [omen_history.coq_case_of(h, res) for h, res in finals[:ncoq]]
+    dist["dir_history_coq_cases"] = len(cases)
+    return vio, cases
+
+
 HEADER = ["From Coq Require Import List NArith ZArith.", "From Pcfg Require Import OmenSpec Omen OmenCorr.",
           "From PcfgGen Require Import Consts_gen.", "Import ListNotations.", "Open Scope nat_scope."]
 
@@ -286,6 +306,15 @@ def run(ctx):
             samples.append({"ngram": om["ngram"], "alphabet": om["alphabet"], "modes": om["modes"], "level": T,
                             "emitted": len(o), "first": o[:4]})
     vio += long_session(ctx, sc, C, dist)
+    # ---- directories with a history: a second (third) model written into a directory that was already loaded
+    import time
+    t_h = time.time()
+    hv, hcases = dir_histories(ctx, sc, C, dist)
+    dist["dir_history_stage_seconds"] = round(time.time() - t_h, 1)
+    vio += hv
+    evaluations += dist["dir_history_levels"]
+    nontrivial += dist["dir_history_levels_discriminating"]
+    cases += hcases
     # ---- correspondence
     # balanced shards: largest case first onto the least loaded shard
     nsh = min(len(cases), common.NCPU) or 1
@@ -324,14 +353,22 @@ def run(ctx):
             "all levels again in random order (one twice, two partial runs first) on ONE Optimizer; oracle: multiset equality with "
             "an independent brute-force enumerator, no duplicates, exhaustion, shared = new; Coq evaluates the model on the same "
             "files (lists compared exactly, Optimizer content compared when small); one LONG session: a 3-gram model with thousands "
-            "of starting n-grams, every level on one Optimizer (cache of >100k entries), against the brute-force enumerator. non-trivial = the level needs a backtrack "
-            "across depth or hits a memo entry stored by an earlier level; distinct by (tables, level)")
+            "of starting n-grams, every level on one Optimizer (cache of >100k entries), against the brute-force enumerator; "
+            "DIRECTORIES WITH A HISTORY: a model written, loaded and enumerated, then a second (sometimes third, or the first again) "
+            "model written into the same directory without removing anything (same n-gram size/alphabet/encoding with other lines, "
+            "levels edited in place, one file edited, other n-gram size, other alphabet), loaded by the same process and by a new "
+            "interpreter in both orders: every level against the brute-force enumeration of the files now on disk (the last load also "
+            "as a Coq case). non-trivial = the level needs a backtrack "
+            "across depth or hits a memo entry stored by an earlier level, or (histories) a level of a re-written directory whose string "
+            "set differs from that of the model the directory held before; distinct by (tables, level) / (history, step, level)")
     return {"evaluations": evaluations, "distinct_nontrivial": nontrivial, "rule": rule, "samples": samples,
             "corr": corr, "violations": vio, "dist": dict(dist)}
 
 
 def replay(ctx, data):
     inp = data.get("input") or {}
+    if "dir_history" in inp:
+        return replay_history(ctx, inp)
     if "om" not in inp:
         return []
     C = consts()
@@ -362,3 +399,26 @@ def replay(ctx, data):
         if out2 != out:
             vio.append({"sig": "C10:cache-dependence", "what": "level %d after history %r differs" % (T, inp["history"]), "replay": inp})
     return vio
+
+
+def replay_history(ctx, inp):
+    """{"dir_history": [model, ...], "plan": [[loader, ...] per model], "T": level or None}: the models written one after the
+    other into ONE directory, with the recorded loader sessions in between."""
+    C = consts()
+    steps = []
+    for om in inp["dir_history"]:
+        om = dict(om)
+        for k in ("ip", "cp", "ep"):
+            om[k] = [tuple(x) for x in om.get(k, [])]
+        steps.append(om)
+    plan = [list(p) for p in inp.get("plan") or []]
+    while len(plan) < len(steps):
+        plan.append(["same-process"])
+    # the recorded sessions, then both loaders on the final state
+    plan[-1] = plan[-1] + [l for l in ("same-process", "child") if l not in plan[-1]]
+    h = {"steps": steps, "variants": list(inp.get("variants") or ["?"] * len(steps)), "plan": plan}
+    dist = Counter()
+    T = inp.get("T")
+    vio, _ = omen_history.run_histories([h], common.scratch(), C["omen_optimizer_max_length"], ctx.rng, 12, 200000, dist,
+                                        levels=None if T is None else [T])
+    return [dict(v, replay=inp) for v in vio]
